@@ -209,6 +209,18 @@ func (p *pathNode) addPathNodeFor(name string, pn *pathNode) {
 // returned by this function. Any operations on the removed tree must use this
 // value.
 func (p *pathNode) removeWithName(name string, fn func(ref *fidRef)) *pathNode {
+	// References taken around fn are dropped only after childMu has been
+	// released (deferred calls run in reverse order). If one of them turns
+	// out to be the last one - the fid was clunked while we were at it -
+	// DecRef removes the reference from its parent's pathNode, and after a
+	// rename within one directory that is this very pathNode.
+	var held []*fidRef
+	defer func() {
+		for _, ref := range held {
+			ref.DecRef()
+		}
+	}()
+
 	p.childMu.Lock()
 	defer p.childMu.Unlock()
 
@@ -232,10 +244,8 @@ func (p *pathNode) removeWithName(name string, fn func(ref *fidRef)) *pathNode {
 			// can lead to data races. If the child has already
 			// been destroyed, then we can skip the callback.
 			if ref.TryIncRef() {
-				func() {
-					defer ref.DecRef()
-					fn(ref)
-				}()
+				held = append(held, ref)
+				fn(ref)
 			}
 		}
 	}
